@@ -198,6 +198,9 @@ def encode(mod, t, v, ch=None, tag='own'):
             ch.features.add('mixed_chain')
         return body
     content, constructed = _content(mod, bt, v, ch)
+    if constructed and k in STRLIKE and tl != [(0, 3 if k == 'BIT STRING' else 4)]:
+        # the string carries any tag besides the bare UNIVERSAL 3/4 of its segments (X.690 8.7.3, 8.21.5.4 example)
+        ch.features.add('constructed_string_retagged')
     forms = []
     body = content
     for i, (cls, num) in enumerate(reversed(tl)):
